@@ -79,7 +79,7 @@ fn get(path: &[u8], mid: u16, method: u8, block2: Option<Vec<u8>>) -> ReqSpec {
         token: vec![mid as u8, 1],
         mid,
         method,
-        path: vec![path.to_vec()],
+        path: path.split(|b| *b == b'|').map(|x| x.to_vec()).collect(),
         extra: vec![],
         block1: None,
         block2,
@@ -93,7 +93,7 @@ fn put(path: &[u8], mid: u16, method: u8, block1: Vec<u8>, payload: Vec<u8>) -> 
         token: vec![mid as u8, 2],
         mid,
         method,
-        path: vec![path.to_vec()],
+        path: path.split(|b| *b == b'|').map(|x| x.to_vec()).collect(),
         extra: vec![],
         block1: Some(block1),
         block2: None,
@@ -140,6 +140,22 @@ fn open_download(h: &mut BlockHandler<CountedEp>, ep: &CountedEp, path: &[u8], s
 }
 
 fn traffic_on_other_keys(h: &mut BlockHandler<CountedEp>, live: &Arc<AtomicIsize>, n: usize, seed: u16) -> Result<(), Fail> {
+    // keys that differ from K = (endpoint 1, method, ["k"]) in exactly one
+    // component, among them paths that only look like K's
+    let me = CountedEp::new(1, live);
+    for (j, p) in [&b"k/v"[..], b"k|v|", b"|k|v", b"k", b"k|V", b"k|v|v"].iter().enumerate() {
+        if n > j {
+            do_exchange(h, &me, &get(p, 900 + j as u16, 1, None), &big_reply(0xD0 + j as u8))?;
+            do_exchange(h, &me, &put(p, 910 + j as u16, 3, block_bytes(0, true, 0), vec![0x99; 16]), &small_reply())?;
+        }
+    }
+    let other = CountedEp::new(2, live);
+    if n > 6 {
+        do_exchange(h, &other, &get(b"k|v", 920, 1, None), &big_reply(0xE0))?;
+        do_exchange(h, &other, &put(b"k|v", 921, 3, block_bytes(0, true, 0), vec![0x98; 16]), &small_reply())?;
+        do_exchange(h, &me, &get(b"k|v", 922, 5, None), &big_reply(0xE1))?;
+        do_exchange(h, &me, &put(b"k|v", 923, 2, block_bytes(0, true, 0), vec![0x97; 16]), &small_reply())?;
+    }
     for i in 0..n {
         let x = (seed as usize).wrapping_mul(31).wrapping_add(i * 7);
         let ep = CountedEp::new(1000 + (x % 97) as u32, live);
@@ -204,12 +220,12 @@ pub fn check(_ctx: &Ctx, c: &Case, acc: &mut Acc) -> Result<(), Fail> {
                 let data = body(16 * (*buffered_blocks as usize + 1) + 5, *seed as u8);
                 let chunks: Vec<&[u8]> = data.chunks(16).collect();
                 for (i, ch) in chunks.iter().enumerate().take(chunks.len() - 1) {
-                    let (out, calls) = do_exchange(&mut h, &me, &put(b"k", i as u16, 3, block_bytes(i as u32, true, 0), ch.to_vec()), &small_reply())?;
+                    let (out, calls) = do_exchange(&mut h, &me, &put(b"k|v", i as u16, 3, block_bytes(i as u32, true, 0), ch.to_vec()), &small_reply())?;
                     ensure!(calls == 0 && out.served_by_handler(), "harness", "buffering a block did not work");
                 }
                 traffic_on_other_keys(&mut h, &live, *intervening as usize, *seed)?;
                 let last = chunks.len() - 1;
-                let (out, calls) = do_exchange(&mut h, &me, &put(b"k", 99, 3, block_bytes(last as u32, false, 0), chunks[last].to_vec()), &small_reply())?;
+                let (out, calls) = do_exchange(&mut h, &me, &put(b"k|v", 99, 3, block_bytes(last as u32, false, 0), chunks[last].to_vec()), &small_reply())?;
                 ensure!(
                     calls == 1 && out.app_saw.as_deref() == Some(&data[..]),
                     "c20-upload-state-lost",
@@ -220,9 +236,9 @@ pub fn check(_ctx: &Ctx, c: &Case, acc: &mut Acc) -> Result<(), Fail> {
                 );
                 acc.class("retention:upload");
             } else {
-                let blk = open_download(&mut h, &me, b"k", *seed as u8)?;
+                let blk = open_download(&mut h, &me, b"k|v", *seed as u8)?;
                 traffic_on_other_keys(&mut h, &live, *intervening as usize, *seed)?;
-                let (out, calls) = do_exchange(&mut h, &me, &get(b"k", 2, 1, Some(block_bytes(1, false, blk.szx))), &big_reply(0xEE))?;
+                let (out, calls) = do_exchange(&mut h, &me, &get(b"k|v", 2, 1, Some(block_bytes(1, false, blk.szx))), &big_reply(0xEE))?;
                 let want = &body(300, *seed as u8)[blk.size()..2 * blk.size()];
                 ensure!(
                     calls == 0 && out.served_by_handler(),
@@ -247,17 +263,17 @@ pub fn check(_ctx: &Ctx, c: &Case, acc: &mut Acc) -> Result<(), Fail> {
             let me = CountedEp::new(1, &live);
             if *upload {
                 let first = vec![0xAB; 16];
-                let (out, calls) = do_exchange(&mut h, &me, &put(b"k", 1, 3, block_bytes(0, true, 0), first.clone()), &small_reply())?;
+                let (out, calls) = do_exchange(&mut h, &me, &put(b"k|v", 1, 3, block_bytes(0, true, 0), first.clone()), &small_reply())?;
                 ensure!(calls == 0 && out.served_by_handler(), "harness", "buffering a block did not work");
                 idle(&mut h, &live, d, *busy)?;
                 if *plain_first {
                     // a request without block options on the same key (PUT with a small body)
-                    let mut plain = put(b"k", 50, 3, vec![], vec![0xEF; 3]);
+                    let mut plain = put(b"k|v", 50, 3, vec![], vec![0xEF; 3]);
                     plain.block1 = None;
                     do_exchange(&mut h, &me, &plain, &small_reply())?;
                     acc.class("expiry:plain-request-first");
                 }
-                let (out, calls) = do_exchange(&mut h, &me, &put(b"k", 2, 3, block_bytes(1, false, 0), vec![0xCD; 7]), &small_reply())?;
+                let (out, calls) = do_exchange(&mut h, &me, &put(b"k|v", 2, 3, block_bytes(1, false, 0), vec![0xCD; 7]), &small_reply())?;
                 if calls == 1 {
                     let saw = out.app_saw.clone().unwrap_or_default();
                     ensure!(
@@ -268,13 +284,13 @@ pub fn check(_ctx: &Ctx, c: &Case, acc: &mut Acc) -> Result<(), Fail> {
                 }
                 acc.class("expiry:upload");
             } else {
-                let blk = open_download(&mut h, &me, b"k", 9)?;
+                let blk = open_download(&mut h, &me, b"k|v", 9)?;
                 idle(&mut h, &live, d, *busy)?;
                 if *plain_first {
-                    do_exchange(&mut h, &me, &get(b"k", 50, 1, None), &small_reply())?;
+                    do_exchange(&mut h, &me, &get(b"k|v", 50, 1, None), &small_reply())?;
                     acc.class("expiry:plain-request-first");
                 }
-                let (out, calls) = do_exchange(&mut h, &me, &get(b"k", 2, 1, Some(block_bytes(1, false, blk.szx))), &big_reply(0x44))?;
+                let (out, calls) = do_exchange(&mut h, &me, &get(b"k|v", 2, 1, Some(block_bytes(1, false, blk.szx))), &big_reply(0x44))?;
                 ensure!(
                     calls == 1 && !out.served_by_handler(),
                     "c20-expired-download-state-used",
@@ -293,9 +309,9 @@ pub fn check(_ctx: &Ctx, c: &Case, acc: &mut Acc) -> Result<(), Fail> {
             let mine: Vec<CountedEp> = (0..*abandoned as u32).map(|i| CountedEp::new(10 + i, &live)).collect();
             for (i, ep) in mine.iter().enumerate() {
                 if *uploads && i % 2 == 1 {
-                    do_exchange(&mut h, ep, &put(b"k", i as u16, 3, block_bytes(0, true, 0), vec![0x5A; 16]), &small_reply())?;
+                    do_exchange(&mut h, ep, &put(b"k|v", i as u16, 3, block_bytes(0, true, 0), vec![0x5A; 16]), &small_reply())?;
                 } else {
-                    open_download(&mut h, ep, b"k", i as u8)?;
+                    open_download(&mut h, ep, b"k|v", i as u8)?;
                 }
             }
             let held = live.load(AO::SeqCst) - mine.len() as isize;
